@@ -73,12 +73,21 @@ CLAIMS = {
             "validate(), retires outside the lock. Linearizability / no-duplicate-key under interleavings is NOT decided.",
             "static analysis: typestate on enumerated CFG paths + belief propagation over the call graph (asserts harvested from a -UNDEBUG parse)",
             "DESIGN.md §4 C13"),
+    "C14": ("other", "Path rules over the hash sets: SplitListSet (HP/DHP, RCU, nogc) init_bucket publishes a bucket only after its dummy node "
+            "(dummy_hash(bucket)) was inserted behind the initialised parent bucket, frees it only on a lost insertion, returns non-null; get_bucket and "
+            "every operation route one hash of the operation's own key to bucket, split-order key and list head; the bucket-count exponent grows by "
+            "one through a CAS from the value read, only below capacity; bucket-table reader and writer use the same segment/offset arithmetic "
+            "(and segments are freed only at tear-down or unpublished); MichaelHashSet routes every operation to bucket(hash(key) & mask) of its "
+            "own key; HP/DHP guard typestate; RCU read-lock discipline incl. unguarded dereferences of shared nodes outside a lock scope. "
+            "Linearizability, duplicates under races and Feldman expansion interleavings are NOT decided (Feldman addressing: C28).",
+            "static analysis: typestate / value-numbered path tables on enumerated CFG paths + belief propagation over the call graph", "DESIGN.md §4 C14"),
     "C17": ("other", "Hash-independent element conservation on every CFG path of the relocation code: CuckooSet::resize and relocate insert "
             "each moved element exactly once (known finding D5: the all-probe-sets-full path of resize drops the element), probe-set positions "
             "are used before anything mutates the probe sets, StripedSet::internal_resize moves every element of every old bucket once into "
             "bucket(hash(element)) of the new table and frees the old table afterwards, every bucket adapter/policy inserts the moved item "
             "exactly once. SplitList/Feldman growth is not covered here.", PATHS, "DESIGN.md §4 C17"),
-    "C18": ("other", "Only the size()/empty() clause: in the ordered containers the item counter changes at most once per operation and only on "
+    "C18": ("other", "The size()/empty() clause plus one necessary condition of the skip-list level property (link positions are written only "
+            "by the key-ordered search routines; the level-L link CAS swings pos.pPrev[L]->next(L) from pos.pSucc[L] to the node). Size clause: in the ordered containers the item counter changes at most once per operation and only on "
             "success paths, every inserting/removing public member reaches a counter change of the right direction, size() reports the counter. "
             "Sortedness, exactly-once traversal, tree order, AVL balance, skip-list level property are runtime heap shape: NOT decided.",
             "static analysis: path tables (value numbering) + call-graph reachability of counter effects", "DESIGN.md §4 C18"),
